@@ -62,7 +62,7 @@ R1For(c) ==
 R1Taint(c) == IF c.vm = "fixed" THEN "m" ELSE "c"
 
 EnvFor(c) == [prog |-> c.prog, base |-> BaseFor(c), helpers |-> c.helpers,
-              fsz |-> c.fsz, budget |-> c.budget, c |-> c]
+              fsz |-> c.fsz, budget |-> c.budget, dev |-> c.dev, c |-> c]
 
 InitFor(c) == InitWith(EnvFor(c), MemFor(c), R1For(c), R1Taint(c))
 
@@ -91,5 +91,5 @@ Outcome == [k |-> status.k, class |-> status.class, val |-> status.val,
             pkt |-> mem[R_PKT],
             mbuf |-> IF env.c.vm = "mbuff" THEN mem[R_MBUF] ELSE <<>>,
             allow |-> SubSeq(mem, 4, Len(mem)),
-            hlog |-> HlogOut, defd |-> defd, steps |-> steps]
+            hlog |-> HlogOut, defd |-> defd, steps |-> steps, dev |-> env.dev]
 =============================================================================
